@@ -4,7 +4,16 @@
 
 use std::collections::BTreeMap;
 
+use std::sync::atomic::{AtomicU32, Ordering};
+
 use crate::rng::Rng;
+
+/// chance (percent) that a generated file ends in one very long line (longer than a `BufWriter` buffer: it
+/// is handed to `write(2)` directly) — set by the fault engine
+pub static BIG_LINE_PCT: AtomicU32 = AtomicU32::new(0);
+/// chance (percent) that a tree gets a file of 120-220 lines; patches on such a file mostly replace a block
+/// of 66-130 lines by as many others (hunks larger than any fixed search window)
+pub static BIG_FILE_PCT: AtomicU32 = AtomicU32::new(3);
 
 #[derive(Clone, Debug, PartialEq)]
 pub struct GenFile {
@@ -36,7 +45,30 @@ pub fn rand_content(rng: &mut Rng, max: usize, rich: bool) -> Vec<Vec<u8>> {
     let n = rng.below(max + 1);
     let mut v: Vec<Vec<u8>> = (0..n).map(|_| rand_line(rng, rich)).collect();
     if n > 0 && rng.chance(15) { let k = v.len() - 1; v[k].pop(); if v[k].is_empty() { v[k] = b"z".to_vec(); } }
+    if rng.chance(BIG_LINE_PCT.load(Ordering::Relaxed)) {
+        if let Some(l) = v.last() { if l.last() != Some(&b'\n') { v.pop(); } }
+        let mut l = vec![b'L'; 8192 + rng.below(700)];
+        if rng.chance(70) { l.push(b'\n'); }
+        v.push(l);
+    }
     v
+}
+
+pub fn big_content(rng: &mut Rng) -> Vec<Vec<u8>> {
+    let n = 120 + rng.below(100);
+    (0..n).map(|i| format!("line {}\n", if rng.chance(10) { i % 7 } else { i }).into_bytes()).collect()
+}
+
+/// replace one block of 66-130 lines by 66-130 other lines (no line in common), keep the rest
+pub fn big_script(rng: &mut Rng, old: &[Vec<u8>]) -> Vec<Op> {
+    let del = (66 + rng.below(65)).min(old.len());
+    let start = rng.below(old.len() - del + 1);
+    let ins = 66 + rng.below(65);
+    let mut ops: Vec<Op> = old[..start].iter().map(|l| Op::Keep(l.clone())).collect();
+    ops.extend(old[start..start + del].iter().map(|l| Op::Del(l.clone())));
+    ops.extend((0..ins).map(|i| Op::Ins(format!("new text {}\n", i).into_bytes())));
+    ops.extend(old[start + del..].iter().map(|l| Op::Keep(l.clone())));
+    ops
 }
 
 /// random edit script over `old`; returns the ops (at least one change unless `old` stays as is on purpose)
@@ -203,6 +235,8 @@ pub fn pick_dialect(rng: &mut Rng) -> Dialect {
     *rng.pick(&[Dialect::Plain, Dialect::Plain, Dialect::Timestamps, Dialect::Git, Dialect::Git, Dialect::Quoted, Dialect::Orig])
 }
 
+// (no name is a directory of another one: a series that turns a directory into a file or back is the
+// known finding dir-file-swap, kept as a witness in corpus/ rather than generated)
 pub const NAMES: [&str; 8] = ["f", "g", "d/h", "d/e/k", "n1", "d/n2", "m", "sp ace"];
 pub const MODES: [u32; 3] = [0o100644, 0o100755, 0o100600];
 
@@ -243,7 +277,7 @@ pub fn gen_patch(rng: &mut Rng, tree: &mut Tree, allow_fail: bool, rich: bool) -
             let name = existing[rng.below(existing.len())].clone();
             let f = tree.get(&name).unwrap().clone();
             if f.lines.is_empty() && c > 0 && rng.chance(50) { continue; }
-            let ops = rand_script(rng, &f.lines, rich);
+            let ops = if f.lines.len() >= 100 && rng.chance(70) { big_script(rng, &f.lines) } else { rand_script(rng, &f.lines, rich) };
             let probe = render_hunks(&ops, c, None, 0);
             let nh = count_hunks(&probe);
             if nh == 0 { continue; }
@@ -343,7 +377,8 @@ pub fn rand_tree(rng: &mut Rng, rich: bool) -> Tree {
     for _ in 0..n {
         let name = NAMES[rng.below(4)].to_string();
         if t.keys().any(|k| k.starts_with(&format!("{}/", name)) || name.starts_with(&format!("{}/", k))) { continue; }
-        t.insert(name, GenFile { lines: rand_content(rng, 8, rich), mode: *rng.pick(&[0o100644u32, 0o100644, 0o100755]) });
+        let lines = if rng.chance(BIG_FILE_PCT.load(Ordering::Relaxed)) { big_content(rng) } else { rand_content(rng, 8, rich) };
+        t.insert(name, GenFile { lines, mode: *rng.pick(&[0o100644u32, 0o100644, 0o100755]) });
     }
     t
 }
